@@ -2,6 +2,7 @@
 numeric tolerance instead of exact rationals: TLC gives the exact expectation, the f64 is compared at 1e-9)."""
 from vlib import close, q_to_fraction
 
+OZ_MG = 28349.5231     # 1 oz = 28.3495231 g (statement of C12)
 VALUE_KINDS = {"num", "pct", "money", "unit", "dur", "date", "time", "datetime"}
 SLOT_KINDS = VALUE_KINDS | {"err", "empty", "none", "other"}
 
@@ -24,6 +25,14 @@ def match_slot(exp, slot):
         return slot["k"] == k
     if k == "term":
         return match_term(exp, slot)
+    if k == "uterm":
+        if slot["k"] != "unit" or slot.get("u") != exp["u"]:
+            return False
+        x = fnum(slot)
+        v = float(q_to_fraction(exp["mul"])) * (OZ_MG ** exp["oz"]) * (2.0 ** exp["e2"])
+        return x is not None and abs(x - v) <= 1e-9 * abs(v)
+    if k == "notunits":
+        return slot["k"] in SLOT_KINDS and (slot["k"] != "unit" or slot.get("u") not in exp["us"])
     if k == "int":
         if slot["k"] != "num" or slot.get("bits") != exp["bits"]:
             return False
